@@ -141,7 +141,7 @@ def run_case(case):
 
         # ---- (c) boolean trees
         if i % 2 == 1:
-            g = ref.Gen(rnd, sandbox, escape_plain=False)
+            g = ref.Gen(rnd, sandbox, escape_plain=rnd.random() < 0.5)
             it, ft, v, top = g.boolean(rnd.randrange(0, 4))
             def ev_infix():
                 return IfExpression(it).evalExpression(env)
